@@ -18,7 +18,7 @@ import wpull.protocol.abstract.client as wabs
 from wpull.network.pool import ConnectionPool
 from wpull.proxy.client import HTTPProxyConnectionPool
 from wpull.network.dns import Resolver
-from wpull.errors import NetworkError
+from wpull.errors import NetworkError, ProtocolError
 from wpull.protocol.http.client import Client as HTTPClient
 from wpull.protocol.http.request import Request
 
@@ -27,7 +27,7 @@ simset.inject(wpool, wabs)
 P = 'C12'
 BUDGETS = {'C12': (40, 900, 200)}
 LEVELS = {'C12': 'exploration'}
-PROBES = {'C12': ['proxy_pool', 'cancel_just_notified', 'waiter_blocked', 'cancel_while_waiting', 'cancel_while_holding', 'cancel_while_connecting',
+PROBES = {'C12': ['proxy_pool', 'proxy_tunnel', 'proxy_tunnel_failed', 'cancel_just_notified', 'waiter_blocked', 'cancel_while_waiting', 'cancel_while_holding', 'cancel_while_connecting',
                   'connect_failed', 'remote_closed_idle', 'force_clean', 'reused_connection']}
 INFO = {'C12': {
     'rule': 'workload = (clients N in 2..6, hosts H in 1..3, per-host limit M in 1..3, per-client rounds with '
@@ -62,6 +62,23 @@ class EchoPeer:
                 conn.send(b'PONG' + line[4:] + b'\n', mode=0)
             elif b'\r\n\r\n' in self.buf:
                 req, self.buf = self.buf.split(b'\r\n\r\n', 1)
+                if req.startswith(b'CONNECT '):
+                    # a proxy asked for a tunnel: grants it (from then on this peer is the origin), refuses, answers rubbish,
+                    # answers late (so that a cancellation can fall inside the CONNECT exchange) or just closes
+                    how = self.h.connect_answer()
+                    self.h.r.faults['proxy_connect.' + how] += 1
+                    if how in ('200', 'slow200'):
+                        conn.send(b'HTTP/1.1 200 Connection established\r\n\r\n', delay=1.0 if how == 'slow200' else None)
+                    elif how == '403':
+                        conn.send(b'HTTP/1.1 403 Forbidden\r\nContent-Length: 6\r\n\r\ndenied')
+                    elif how == '407close':
+                        conn.send(b'HTTP/1.1 407 Proxy Authentication Required\r\nConnection: close\r\nContent-Length: 0\r\n\r\n')
+                        conn.finish()
+                    elif how == 'garbage':
+                        conn.send(b'\x00\x01 not http at all\r\n\r\n')
+                    else:
+                        conn.finish()
+                    continue
                 tag = req.split(b' ')[1]
                 if tag.startswith(b'http://'):
                     tag = b'/' + tag.split(b'/', 3)[3]        # absolute form (request through a proxy)
@@ -204,9 +221,20 @@ def run(tape, prop, tier):
                         waiting[ci] = key
                         r.log('t=%.3f c%d acquire %s style=%s' % (loop.time(), ci, host, style))
                         if style == 'ctx':
-                            cm = yield from pool.session(host, 80)
+                            try:
+                                cm = yield from pool.session(host, 80)
+                            except (NetworkError, ProtocolError):
+                                r.probes['proxy_tunnel_failed'] += 1
+                                waiting.pop(ci, None)
+                                state[ci] = 'idle'
+                                continue
                             waiting.pop(ci, None)
                             with cm as conn:
+                                if conn is None:
+                                    r.violate(P, 'leak', 'acquire-returned-nothing', 'client %d: session(%r) yields None as the connection (%s)'
+                                              % (ci, key, type(pool).__name__))
+                                    state[ci] = 'idle'
+                                    continue
                                 take(ci, conn)
                                 try:
                                     if do_use:
@@ -221,7 +249,32 @@ def run(tape, prop, tier):
                                     give(ci, conn)
                             state[ci] = 'idle'
                             continue
-                        conn = yield from pool.acquire(host, 80)
+                        if style == 'tunnel':
+                            # a tunnel through the proxy (what https and ftp URLs need): CONNECT may be refused, answered with
+                            # rubbish, or be interrupted by a cancellation; whatever happens nothing may stay checked out
+                            try:
+                                conn = yield from pool.acquire_proxy(host, 80, use_ssl=False, tunnel=True)
+                            except (NetworkError, ProtocolError):
+                                r.probes['proxy_tunnel_failed'] += 1
+                                waiting.pop(ci, None)
+                                state[ci] = 'idle'
+                                continue
+                            r.probes['proxy_tunnel'] += 1
+                        else:
+                            try:
+                                conn = yield from pool.acquire(host, 80)
+                            except (NetworkError, ProtocolError):
+                                # (proxy pool only: acquiring includes connecting to the proxy and asking for the tunnel)
+                                r.probes['proxy_tunnel_failed'] += 1
+                                waiting.pop(ci, None)
+                                state[ci] = 'idle'
+                                continue
+                        if conn is None:
+                            r.violate(P, 'leak', 'acquire-returned-nothing', 'client %d: acquire(%r) checked a connection out and returned None: '
+                                      'it can never be given back (%s)' % (ci, key, type(pool).__name__))
+                            waiting.pop(ci, None)
+                            state[ci] = 'idle'
+                            continue
                         waiting.pop(ci, None)
                         take(ci, conn)
                         released = False
@@ -258,7 +311,10 @@ def run(tape, prop, tier):
                 finally:
                     finished.append(ci)
 
-            styles = ('raw', 'nowait', 'close', 'ctx', 'http') if not use_proxy else ('http', 'http')
+            styles = ('raw', 'nowait', 'close', 'ctx', 'http') if not use_proxy else ('http', 'http', 'tunnel', 'raw', 'nowait', 'ctx')
+            answers = ('200', '200', '200', 'slow200', '403', '407close', 'garbage', 'close') if faults_on else ('200', '200', 'slow200')
+            h.connect_answer = lambda: answers[tape.draw(len(answers), 'proxy.connect')]
+            h.r = r
             if use_proxy:
                 r.probes['proxy_pool'] += 1
             holds = (0.0, 0.01, 0.1, 1.0, 0.5)
